@@ -13,8 +13,9 @@ Oracle (no Lean model involved), per case:
              that parses and (type, "") for every other block
   exact      the filtered read = the events of U whose call was accepted, in order (blocks, issues, ending);
              a rejected failing table raises nothing
-  content    all rows of a rejected TABLE block are replaced by junk (first cell of the block kept, same shape):
-             the filtered read is unchanged
+  content    all rows of a rejected TABLE block are replaced by junk (first cell of the block kept; same shape, or
+             rows dropped / appended / shortened): the filtered read is unchanged, except that origin rows after the
+             block move by the change in its number of rows
 Correspondence: every filtered read also runs through the Lean `parseBlocks` (driver op "parse_blocks") with the
 same extensional filter, and the recorded calls are compared with the model's `accepts` arguments (op "offered").
 """
@@ -266,9 +267,10 @@ def draw_filter(rng, pairs):
     return {"accept": [[t, n, rng.random() < p] for t, n in pairs], "default": dflt}
 
 
-def junk_rows(rng, block_rows, csv):
-    """same number of rows, same row lengths, first cell of the block kept, every other cell replaced; first cells of
-    the following rows stay 'plain' (neither blank nor a marker) so that the block boundaries do not move"""
+def junk_rows(rng, block_rows, csv, reshape=False):
+    """the rows of a block with everything but its first cell replaced. The first cells of the following rows stay
+    'plain' (neither blank nor a marker) so that the block stays one block. With `reshape` the block also changes
+    shape: rows after the first are dropped (possibly all) or plain rows are appended, and rows are shortened."""
     junk = ["junk", "**x", "::", "k:", "-", "nan", "1e999", "2020-13-45", "x", "text", "***"] + \
            ([] if csv else [5, 2.5, True, datetime.datetime(2021, 3, 4)])
     plain = ["junk", "j2", "zz"] + ([] if csv else [7, 1.5])
@@ -283,6 +285,18 @@ def junk_rows(rng, block_rows, csv):
             else:
                 new.append(rng.choice(junk))
         out.append(new)
+    if reshape:
+        how = rng.choice(["drop", "drop_all", "append", "shorten", "mix"])
+        if how in ("drop", "mix") and len(out) > 1:
+            keep = sorted(rng.sample(range(1, len(out)), rng.randint(0, len(out) - 1)))
+            out = [out[0]] + [out[i] for i in keep]
+        if how == "drop_all":
+            out = out[:1]
+        if how in ("append", "mix"):
+            out += [[rng.choice(plain)] + [rng.choice(junk) for _ in range(rng.randint(0, 3))]
+                    for _ in range(rng.randint(1, 3))]
+        if how in ("shorten", "mix"):
+            out = [r[: rng.randint(1, len(r))] for r in out]
     return out
 
 
@@ -461,29 +475,45 @@ def one_case(rng, out, seed, idx, tmp, ops, pend, model_ok):
     k = rng.choice(cand)
     si, (ty, start, n, head) = flat[k]
     seen_rows = src.seen[si]
-    new_block = junk_rows(rng, seen_rows[start:start + n], csv=(api == "read_csv"))
+    # half of the single-sheet cases also change the shape of the block (fewer / more / shorter rows): then the
+    # origin rows of everything after it move by the difference, and nothing else may change
+    reshape = len(src.seen) == 1 and rng.random() < 0.5
+    new_block = junk_rows(rng, seen_rows[start:start + n], csv=(api == "read_csv"), reshape=reshape)
+    n2 = len(new_block)
+    d = n2 - n
     # rebuild the source from what was seen (one row per text line / per sheet row, widths as they were)
     new_sheets = [list(map(list, s)) for s in src.seen]
     new_sheets[si] = seen_rows[:start] + new_block + seen_rows[start + n:]
     src2 = Source(api, new_sheets, tmp, sep, tag=f"c{idx}m")
-    same_outside = all(
-        (a[:start] + a[start + n:] if j == si else a) == (b[:start] + b[start + n:] if j == si else b)
-        for j, (a, b) in enumerate(zip(src.seen, src2.seen))) and len(src.seen) == len(src2.seen)
-    if not same_outside or segmentation(src2.seen[si]) != [
-            (t, s_, n_, h_) for (t, s_, n_, h_) in segs[si]]:
+    same_outside = len(src.seen) == len(src2.seen) and all(
+        (a[:start] + a[start + n:] if j == si else a) == (b[:start] + b[start + n2:] if j == si else b)
+        for j, (a, b) in enumerate(zip(src.seen, src2.seen)))
+    k_local = k - sum(len(sg) for sg in segs[:si])
+    exp_segs = [(t, s_, n_, h_) if i < k_local else (t, s_, n2, h_) if i == k_local else (t, s_ + d, n_, h_)
+                for i, (t, s_, n_, h_) in enumerate(segs[si])]
+    if not same_outside or segmentation(src2.seen[si]) != exp_segs:
         out.count("content:rewrite_moved_boundaries")
         return
     rec.clear()
     F2 = run_read(src2, to, pred, tracker)
-    out.count("content:checked")
+    out.count("content:checked" + (":reshaped" if reshape else ""))
+    if d:
+        out.count("content:row_count_changed")
     out.evaluations += 1
-    if {k_: F2[k_] for k_ in ("blocks", "issues", "ending")} != {k_: F[k_] for k_ in ("blocks", "issues", "ending")}:
-        raised = F2["ending"] != F["ending"]
+
+    def shift(row):
+        return row + d if (row is not None and row >= start + n) else row
+    expF = {"blocks": [dict(b, first=shift(b["first"])) for b in F["blocks"]],
+            "issues": [shift(r) for r in F["issues"]],
+            "ending": ({"InputError": shift(F["ending"]["InputError"])}
+                       if isinstance(F["ending"], dict) and "InputError" in F["ending"] else F["ending"])}
+    if {k_: F2[k_] for k_ in ("blocks", "issues", "ending")} != expF:
+        raised = F2["ending"] != expF["ending"]
         out.fail("malformed content inside a rejected table " + ("made the read raise" if raised else
                  "changed the accepted blocks"),
                  dict(case, filter=spec, rejected_block=k, rewritten=grid_to_json(new_block)),
                  {"ending": F2["ending"], "blocks": [(b["ty"], b["first"]) for b in F2["blocks"]]},
-                 {"ending": F["ending"], "blocks": [(b["ty"], b["first"]) for b in F["blocks"]]},
+                 {"ending": expF["ending"], "blocks": [(b["ty"], b["first"]) for b in expF["blocks"]]},
                  key="rejected_content:" + ("raises" if raised else "changes"))
     if model_ok:
         for sj, rows in enumerate(src2.seen):
